@@ -1155,7 +1155,7 @@ def no_effect_loop(c):
 CONTRACTS.append(ARE_SUBOPS)
 
 IS_BF_CACHED = Contract(
-    M + '_is_build_file_cached', props=['C13', 'C01', 'C05'],
+    M + '_is_build_file_cached', props=['C13', 'C01', 'C05', 'C10', 'C04'],
     params={'self': FB, 'operation': OBJ('BuildFileOperation')}, returns=BOOL,
     requires=lambda c: [('recorded-result-is-json', J.eqdom(c.old(
         'BuildFileOperation.file_comparison_result', c.operation)))],
